@@ -13,9 +13,9 @@ RENAMES = {
     "type": ["type", "kind", "branch"],
     "assettype": ["assettype", "cat", "family"],
     "asset": ["asset", "name", "item"],
-    "sequence": ["sequence", "seq", "episode"],
+    "sequence": ["sequence", "seq", "episode", "s\u00e9quence"],      # (key names are identifiers: non-ASCII letters are legal)
     "shot": ["shot", "plan", "cut", "shot_name"],
-    "task": ["task", "step", "dept"],
+    "task": ["task", "step", "dept", "t\u00e2che"],
     "version": ["version", "rev", "iteration"],
     "state": ["state", "status", "stage", "pub_state"],
     "node": ["node", "element"],
